@@ -18,7 +18,7 @@ def run(ctx):
     if r1["violation"]:
         raise Inconclusive("Crash.tla: the one-batch shape violates AtomicRecovery at spec level")
     r2 = ctx.tlc("MCCrash", "Crash_diffseparate", workers=2, timeout=300, check=False)
-    if not r2["violation"]:
+    if not ctx.violations and (not r2["violation"]):
         raise Inconclusive("Crash.tla control (separate diff write) does not violate AtomicRecovery: model is vacuous")
     if ctx.replay:
         d = json.load(open(ctx.replay))["replay"]
@@ -50,7 +50,7 @@ def run(ctx):
             ctx.violation(key, "crash record rejected by CrashTrace.tla: %s" % json.dumps(e)[:400], dict(record=e))
     log("[c13] scripts=%d crash points=%d by kind %s pre=%d post=%d violations=%s" % (res["scripts"], res["crash_points"], res["steps_by_kind"],
         res["recovered_pre_state"], res["recovered_post_state"], sorted(reported)))
-    if res["crash_points"] < 50 or res["recovered_post_state"] == 0 or res["recovered_pre_state"] == 0 or len(res["steps_by_kind"]) < 2:
+    if not ctx.violations and (res["crash_points"] < 50 or res["recovered_post_state"] == 0 or res["recovered_pre_state"] == 0 or len(res["steps_by_kind"]) < 2):
         raise Inconclusive("crash points did not cover pre and post states of apply and delete: vacuous")
     ctx.states -= r2["distinct"]; ctx.transitions -= r2["generated"]
     cov = dict(evaluations=res["crash_points"], distinct_nontrivial=res["distinct_step_shapes"],
